@@ -66,23 +66,41 @@ def check(run, model, tier):
     if len(hps) != 1:
         raise AnalysisError('thread helper: handle parameter not identified')
     hp = hps.pop()
-    # ---- RETURNS.handle
-    rets = [n for n in g.nodes if n.kind == 'stmt' and isinstance(n.ast, ast.Return)]
-    falls = [p for p, l in g.pred[g.exit] if l != 'return']
-    bad_rets = [r for r in rets if not (isinstance(r.ast.value, ast.Name) and r.ast.value.id == hp)]
-    ok = not falls and not bad_rets and bool(rets)
-    run.inst('RETURNS.handle', ih, 'returns the handle on every path', ok,
-             '' if ok else ('the helper can finish without returning the thread handle (%s): start() then stores None in the handle while the thread is alive, '
-                            'is_alive() reports False and the next start() creates a second delivery thread of that kind'
-                            % ('falls off the end after ' + falls[0].text() if falls else 'returns ' + norm(bad_rets[0].ast))), obligation=True)
-    # ---- ORDER.start
-    creates = [n for n in g.nodes if n.kind not in ('entry', 'exit', 'xexit', 'def') and any(isinstance(c.func, ast.Name) and c.func.id == 'Thread' for c in n.calls())]
-    starts = [n for n in g.nodes if n.kind not in ('entry', 'exit', 'xexit', 'def') and
-              any(isinstance(c.func, ast.Attribute) and c.func.attr == 'start' and isinstance(c.func.value, ast.Name) and c.func.value.id == hp for c in n.calls())]
-    run.floor('Thread creation sites in the helper', len(creates), 1)
-    run.floor('thread start sites in the helper', len(starts), 1)
+    # ---- RETURNS.handle (path rule on the reaching definitions of every returned value): what comes back is either the thread created on this path, or the handle
+    # that came in on a path that established it to be a live thread
+    from sa.util import returned_values
     from sa.boolflow import values_at
     k_none, k_alive = '%s is None' % hp, '%s.is_alive()' % hp
+    creates = [n for n in g.nodes if n.kind not in ('entry', 'exit', 'xexit', 'def') and any(isinstance(c.func, ast.Name) and c.func.id == 'Thread' for c in n.calls())]
+    cvars = {t.id for n in creates if isinstance(n.ast, ast.Assign) for t in n.ast.targets if isinstance(t, ast.Name)}
+    starts = [n for n in g.nodes if n.kind not in ('entry', 'exit', 'xexit', 'def') and
+              any(isinstance(c.func, ast.Attribute) and c.func.attr == 'start' and isinstance(c.func.value, ast.Name) and c.func.value.id in (cvars | {hp}) for c in n.calls())]
+    bad = []
+    n_out = 0
+    for p_, lab_, vals in returned_values(g, ih.params):
+        n_out += 1
+        for v, dn in vals:
+            if dn in creates and isinstance(v, ast.Call):
+                continue                                    # the thread created on this path
+            if dn is g.entry and v is None and isinstance(p_.ast, ast.Return) and isinstance(p_.ast.value, ast.Name) and p_.ast.value.id == hp:
+                # the handle that came in, untouched: fine where it is known to be a live thread - and only if no thread was created on the way
+                va = values_at(g, p_, {k_none, k_alive})
+                live = bool(va) and all(x.get(k_none) is False and x.get(k_alive) is True for x in va)
+                through_create = any(g.exists_path(c_, p_) for c_ in creates) and not live
+                if live and not through_create:
+                    continue
+                # (a single return after an if that rebinds the parameter: the incoming definition reaches the return only on the live path)
+                if all((x.get(k_none) is False and x.get(k_alive) is True) or any(g.exists_path(c_, p_) for c_ in creates) for x in va) and va:
+                    continue
+            bad.append((p_, v))
+    ok = not bad and n_out >= 1
+    run.inst('RETURNS.handle', ih, 'returns the handle on every path', ok,
+             '' if ok else ('the helper can finish without returning the thread handle (%s): start() then stores None (or a stale object) in the handle while the thread is alive, '
+                            'is_alive() reports False and the next start() creates a second delivery thread of that kind'
+                            % ('after ' + bad[0][0].text()[:60] if bad else 'no return')), obligation=True)
+    # ---- ORDER.start
+    run.floor('Thread creation sites in the helper', len(creates), 1)
+    run.floor('thread start sites in the helper', len(starts), 1)
     for n in creates + starts:
         # path-sensitive: wherever a thread is created/started, the handle that came in was None or not alive (whatever the shape of the tests)
         vals = values_at(g, n, {k_none, k_alive})
@@ -91,10 +109,14 @@ def check(run, model, tier):
         run.inst('ORDER.start', ih, '%s only when no live thread is stored' % ('Thread()' if n in creates else 'start()'), ok,
                  '' if ok else 'a delivery thread is created/started without first establishing that the stored handle is None or dead: '
                  'repeated start() calls accumulate threads', node=n.ast, obligation=True)
-    # daemon + started thread bound to the handle variable
+    # the created thread is the one that is started and handed back
     for n in creates:
-        ok = isinstance(n.ast, ast.Assign) and any(isinstance(t, ast.Name) and t.id == hp for t in n.ast.targets)
-        run.inst('ORDER.start', ih, 'the new thread replaces the handle', ok, 'the created thread is not bound to the handle that is returned', node=n.ast, obligation=True)
+        bound = [t.id for t in n.ast.targets if isinstance(t, ast.Name)] if isinstance(n.ast, ast.Assign) else []
+        started = any(any(isinstance(c.func, ast.Attribute) and c.func.attr == 'start' and isinstance(c.func.value, ast.Name) and c.func.value.id in bound for c in s_.calls())
+                      and g.exists_path(n, s_) for s_ in starts)
+        handed = all(any(dn is n for v, dn in vals) for p_, lab_, vals in returned_values(g, ih.params) if g.exists_path(n, p_))
+        ok = bool(bound) and started and handed
+        run.inst('ORDER.start', ih, 'the new thread replaces the handle', ok, 'the created thread is not started, or is not the handle that is returned', node=n.ast, obligation=True)
     for reg, th in sorted(w.threads.items()):
         c = th['call']
         ok = th['handle'] is not None and dotted(th['args'].get(hp)) == w.start.params[0] + '.' + th['handle']
